@@ -1,5 +1,5 @@
 (* C12 - Size and range limits are exact; accepted values are never altered to fit. *)
-From Ctap Require Import Base Schema Wire Utf8 Typed WellTyped Procs Inst Tables Limits WireP TypedP FramingP SerP RoundTripP ObRequestSide ObEnvRt FnShapes Shapes ObShapeStrings ObShapeFilters LimitsP.
+From Ctap Require Import Base Schema Wire Utf8 Typed WellTyped Procs Inst Tables Limits WireP TypedP FramingP SerP RoundTripP ObRequestSide ObEnvRt FnShapes Shapes ObShapeStrings ObShapeFilters LimitsP Deps ObDeps.
 Local Open Scope string_scope.
 Local Open Scope Z_scope.
 
@@ -103,6 +103,10 @@ Proof. exact generated_shapes_strings. Qed.
 Theorem c12_modelled_functions_unchanged_filters : shapes_hold fn_shapes shapes_filters = true.
 Proof. exact generated_shapes_filters. Qed.
 
+(* the third-party crates the model represents by hand are pinned at the versions it was written against *)
+Theorem c12_modelled_dependencies_pinned : deps_hold lock_versions cargo_deps = true.
+Proof. exact generated_deps. Qed.
+
 Eval vm_compute in "ASSUMPTIONS c12_limits_generated". Print Assumptions c12_limits_generated.
 Eval vm_compute in "ASSUMPTIONS c12_limits_spec". Print Assumptions c12_limits_spec.
 Eval vm_compute in "ASSUMPTIONS c12_bytes_exact". Print Assumptions c12_bytes_exact.
@@ -120,3 +124,4 @@ Eval vm_compute in "ASSUMPTIONS c12_modelled_functions_unchanged_strings". Print
 Eval vm_compute in "ASSUMPTIONS c12_modelled_functions_unchanged_filters". Print Assumptions c12_modelled_functions_unchanged_filters.
 Eval vm_compute in "ASSUMPTIONS c12_accepted_is_within_limits". Print Assumptions c12_accepted_is_within_limits.
 Eval vm_compute in "ASSUMPTIONS c12_accepted_is_within_limits_generic". Print Assumptions c12_accepted_is_within_limits_generic.
+Eval vm_compute in "ASSUMPTIONS c12_modelled_dependencies_pinned". Print Assumptions c12_modelled_dependencies_pinned.
